@@ -19,6 +19,8 @@
 #define KV_EV_BWD_END    10
 #define KV_EV_MEET_BEGIN 11
 #define KV_EV_MEET_END   12  /*                                              y=meet z=transition         */
+#define KV_EV_DETECT_TABLES 13 /* detect_alphabet: before summing            p=double DNA[128] q=double protein[128] */
+#define KV_EV_DETECT_SUMS 14 /* detect_alphabet: after summing               p=&dna_prob q=&prot_prob    */
 
 typedef void (*kalign_verif_cb_t)(int ev, const void* p, const void* q, int x, int y, int z);
 #ifdef __cplusplus
